@@ -59,6 +59,13 @@ mut("g24-use-before-nil-test", C, "			if task := c.compileTask(&flow, ce.Args[0]
 mut("g21-map-arity-check-weakened", P, "	if len(fn.Inputs) != 2 {\n		c.errf(c.nodePosition(mmap), \"map function expects two", "	if len(fn.Inputs) > 2 {\n		c.errf(c.nodePosition(mmap), \"map function expects two", ["G21"])
 mut("g20-positioned-synthetic", C, "		Name: &ast.BasicLit{\n			Kind:  token.STRING,", "		Name: &ast.BasicLit{\n			ValuePos: token.Pos(1),\n			Kind:  token.STRING,", ["G20"])
 mut("g19-dedupe-dependson", C, "		for _, depIdx := range g.Dependencies(idx) {\n			fn.DependsOn = append(fn.DependsOn, f.Funcs[depIdx])\n		}", "		for _, depIdx := range g.Dependencies(idx) {\n			if depIdx != idx+1 {\n				fn.DependsOn = append(fn.DependsOn, f.Funcs[depIdx])\n			}\n		}", ["G19"])
+
+# regenerated-corpus (Y) rules: generator edits seen through the generated code
+mut("y-drop-tail-byte", G, "	if _, err := buff.Write(bs[lastOff:]); err != nil {\n		return err\n	}\n\n	// Parse the generated file and clean up.", "	if _, err := buff.Write(bs[lastOff:len(bs)-1]); err != nil {\n		return err\n	}\n	buff.WriteString(\"\\n// end\\n\")\n\n	// Parse the generated file and clean up.", ["G15"], engines="gen,lint")
+mut("y-sourcemap-extra-stmt", G, "		fmt.Fprintf(w, \"/*line %v:%d*/\", filepath.Base(f.PosInfo.File), endPos.Line-1)\n	}\n\n	if _, err := io.WriteString(w, \"}()\\n}()\"); err != nil {", "		fmt.Fprintf(w, \"/*line %v:%d*/\", filepath.Base(f.PosInfo.File), endPos.Line-1)\n		io.WriteString(w, \"\\n_ = 0\\n\")\n	}\n\n	if _, err := io.WriteString(w, \"}()\\n}()\"); err != nil {", ["V20"], engines="gen,lint")
+mut("y-drop-predicate-edge", C, "		t.Function.Dependencies = append(t.Function.Dependencies, t.Predicate.SentinelOutput)", "		_ = t.Predicate.SentinelOutput", ["V15"], engines="gen", why="compile.go forgets the task->predicate edge: the generator now rejects valid corpus flows")
+mut("y-directive-left", C, "			case fn.Name() == \"Parallel\":\n				parallel := c.compileParallel(astFile, n)", "			case fn.Name() == \"Parallel\" && len(n.Args) > 9:\n				parallel := c.compileParallel(astFile, n)", ["V15"], engines="gen", why="cff.Parallel silently skipped")
+mut("y-source-decl-dropped", G, "		lastOff = posFile.Offset(gen.End())\n", "		lastOff = posFile.Offset(gen.End())\n		if len(f.Generators) > 1 {\n			lastOff += 0\n		}\n", [], benign=True, engines="gen")
 # benign
 mut("benign-errf-wording", C, "\"cff.Flow expects at least one function\"", "\"cff.Flow expects one or more functions\"", [], benign=True)
 mut("benign-not-cff-generic-path", "internal/buildtag.go", "		// Special-case: If \"X\" in \"!X\" is \"cff\",\n		// just remove the \"!\".\n		if t, ok := ex.X.(*constraint.TagExpr); ok && t.Tag == \"cff\" {\n			*exp = ex.X\n			return\n		}\n", "", [], benign=True)
